@@ -395,6 +395,8 @@ def verify_function(src, reg, key, opts=None):
                 for i in range(len(prefix), len(ctx.taken)):
                     kk, n, lab = ctx.taken[i]
                     for alt in range(kk + 1, n):
+                        if alt in ctx.dead_alts.get(i, ()):
+                            continue
                         todo.append([(t[0], t[2], t[1]) for t in ctx.taken[:i]] + [(alt, lab, n)])
                 if status == 'infeasible':
                     res.infeasible += 1
